@@ -35,3 +35,22 @@ def c03_int_trunc(v, spec):
     # only emits this kind when the stored values equal trunc(reference) and
     # the masks agree, so any other wrong value is still reported.
     return v['kind'] == 'integer-truncation'
+
+
+@pred('C10-apply-tstep-sdate')
+def c10_apply_tstep(v, spec):
+    # applyAlongDimensions over TSTEP transforms the TFLAG integers as if
+    # they were data (mean/prod/... of YYYYJJJ and HHMMSS) and leaves
+    # SDATE/STIME at the input's start: start attributes != first time flag.
+    return (v['kind'] == 'incoherent-after:apply:sdate' and
+            'TSTEP' in v.get('meta', {}).get('apply', {}))
+
+
+@pred('C05-eval-stores-by-reference')
+def c05_eval_alias(v, spec):
+    # eval() stores the object the expression evaluates to without copying;
+    # numpy.ma results (np.abs(x), x * 2, ...) share their MASK buffer with
+    # the operand, so masking cells of the new variable masks the input's.
+    if v['kind'] != 'result-aliases-input:eval':
+        return False
+    return all('mask changed' in d for d in v.get('diffs', ['x']))
